@@ -14,7 +14,7 @@ COND_MAX = 1e3
 RULE = ('cases = amen_solve(A,b,eps,...) (python backend, default nswp) on systems generated with a CERTIFIED conditioning bound (the dense matrix is formed by the harness and '
         'cond_2 <= 1e3 is asserted before the case is admitted): SPD I + c*B^T B, diagonally dominant I + eps*B (non-symmetric), Kronecker-sum Laplacians (+shift), Kronecker-sum upwind convection-diffusion operators (non-symmetric tridiagonal; with and without the band_diagonal=1 option); order 2..5, '
         'mode sizes 2..12 (dense dimension <= 700), operator ranks 1..5, right-hand sides of rank 1..4 (random or A@x_true), eps log-uniform in [1e-10,1e-3]; configurations '
-        '{preconditioner None,c,r} x {max_full 500, 0} x {local_solver 1 (GMRES), 2 (BiCGSTAB)} x {x0 None, random} x internal seeds. Oracle: shape; dense residual '
+        '{preconditioner None,c,r} x {max_full 500, 0} x {local_solver 1 (GMRES), 2 (BiCGSTAB)} x {x0 None, random, exact solution, zero tensor, one zero core, norm 1e12 / 1e-14} x internal seeds. Oracle: shape; dense residual '
         '||A x - b|| <= 10*eps*||b||. The REACH tracer records which local solver actually ran in each execution (gmres_restart / BiCGSTAB_reset / direct, apply_prec) and a '
         'configuration whose intended solver was not observed is not counted. A logical-step monitor (calls of torch.rand inside one boundary call) turns an unbounded retry loop '
         'into a violation instead of a wall-clock timeout. distinct = (class, structure, configuration, eps decade, seed index); non-trivial = intended local solver observed.')
